@@ -2237,6 +2237,16 @@ class DipStoreMachine(Machine):
         if chunks is None:
             self.stats.fault("sibling_parser_straddles_the_round", False)
             return None
+        # registered functions live on the base environment object, which both parsers share:
+        # two texts that register different functions under one name are not independent
+        # sessions (pinned behaviour, and no statement says otherwise)
+        mine = {st["fname"] for c in op["chunks"] for st in
+                (c.get("stmts") or (self.files.get(c.get("path"), {}) or {}).get("stmts") or [])
+                if st.get("k") == "fn"}
+        theirs = {st["fname"] for c, stmts in chunks for st in stmts if st["k"] == "fn"}
+        if mine & theirs:
+            self.stats.fault("sibling_parser_straddles_the_round", False)
+            return None
         sib = {"rec": rec, "when": sd.get("when", "after")}
         if sib["when"] == "same_object":
             # no second parser: this round's own parser object parses a second time.  A parser
